@@ -327,7 +327,7 @@ func (env *Env) c09SerTail() {
 				// the trailing part may be left out only when it is empty
 				if cpt.tail != nil {
 					x := pat.Is(fieldT(msg, "ExtraBytes"))
-					condOK = pat.OneOf(pat.Bin("!=", x, pat.Const("nil")), pat.Bin("!=", pat.Len(x), pat.Const("0")), pat.Bin("<", pat.Const("0"), pat.Len(x)))(res.Args[0], pat.Bind{}) &&
+					condOK = pat.OneOf(pat.Bin("!=", x, pat.Const("nil")), pat.NonEmpty(x), pat.Bin("<", pat.Const("0"), pat.Len(x)))(res.Args[0], pat.Bind{}) &&
 						flow.StripConv(res.Args[1]).Op == flow.OpConcat && len(flow.StripConv(res.Args[1]).Args) == len(cpt.parts)+1
 				}
 			} else if res.Op == flow.OpPhi {
